@@ -8,6 +8,7 @@ import (
 	"fmt"
 	"runtime"
 	"sync"
+	"sync/atomic"
 	"testing"
 	"time"
 
@@ -32,6 +33,7 @@ type hyStep struct {
 type hyCase struct {
 	MaxSize int      `json:"maxsize"`
 	Loading bool     `json:"loading"`
+	Pool    bool     `json:"entry_pool,omitempty"`
 	Workers int      `json:"workers"`
 	Prob    float32  `json:"prob"`
 	Settle  bool     `json:"settle"`             // wait for the secondary workers after every step
@@ -42,6 +44,11 @@ type hyCase struct {
 }
 
 type hySec struct {
+	// slow Set: when armed, the next Set announces its key on 'entered' and sleeps slowFor first
+	armed   atomic.Bool
+	entered chan int
+	slowFor time.Duration
+
 	mu        sync.Mutex
 	m         map[int]hySecEntry
 	failSet   []bool
@@ -70,6 +77,13 @@ func (s *hySec) Get(key int) (int, int64, int64, bool, error) {
 	return e.val, e.cost, e.expire, true, nil
 }
 func (s *hySec) Set(key int, value int, cost int64, expire int64) error {
+	if s.armed.CompareAndSwap(true, false) {
+		select {
+		case s.entered <- key:
+		default:
+		}
+		time.Sleep(s.slowFor)
+	}
 	s.mu.Lock()
 	defer s.mu.Unlock()
 	i := s.setCalls
@@ -151,12 +165,12 @@ func execHybrid(c hyCase, x *verifkit.Ctx, c15 bool) (fail *verifkit.Failure) {
 		}
 	}()
 	vkResetWall()
-	sec := &hySec{m: map[int]hySecEntry{}, failSet: c.FailSet, failDel: c.FailDel}
+	sec := &hySec{m: map[int]hySecEntry{}, failSet: c.FailSet, failDel: c.FailDel, entered: make(chan int, 1), slowFor: 4 * time.Millisecond}
 	seq := 0
 	loaderCalls := 0
 	model := map[int]*hyModel{}
 	gBase := runtime.NumGoroutine()
-	store := NewStore[int, int](&StoreOptions[int, int]{MaxSize: int64(c.MaxSize), SecondaryCache: sec, Workers: c.Workers, Probability: c.Prob})
+	store := NewStore[int, int](&StoreOptions[int, int]{MaxSize: int64(c.MaxSize), SecondaryCache: sec, Workers: c.Workers, Probability: c.Prob, EntryPool: c.Pool})
 	hyBase = VerifSecondaryEnqueued.Load() - VerifSecondaryProcessed.Load()
 	defer func() {
 		// let the workers finish what was handed to them before Close stops them, so that
@@ -387,6 +401,62 @@ func execHybrid(c hyCase, x *verifkit.Ctx, c15 bool) (fail *verifkit.Failure) {
 			if f := settle(); f != nil {
 				return f
 			}
+		case "slowdel":
+			// a slow secondary Set (4 ms) during a demotion, and a Delete of exactly that key issued
+			// while the worker is inside it
+			if f := settle(); f != nil {
+				return f
+			}
+			type delRes struct {
+				key int
+				err error
+				ok  bool
+			}
+			resc := make(chan delRes, 1)
+			stop := make(chan struct{})
+			sec.armed.Store(true)
+			go func() {
+				select {
+				case k := <-sec.entered:
+					err := store.DeleteWithSecondary(k)
+					resc <- delRes{k, err, true}
+				case <-stop:
+					resc <- delRes{}
+				}
+			}()
+			for j := 0; j < c.MaxSize+2; j++ {
+				fresh++
+				seq++
+				store.Set(fresh, seq, 1, 0)
+				model[fresh] = &hyModel{val: seq}
+			}
+			store.Wait()
+			time.Sleep(200 * time.Microsecond)
+			sec.armed.Store(false)
+			close(stop)
+			var dr delRes
+			select {
+			case dr = <-resc:
+			case <-time.After(20 * time.Second):
+				f := failf("hybrid/delete-stuck", "Delete issued during a slow secondary Set did not return")
+				f.Sticky = true
+				return f
+			}
+			if f := settle(); f != nil {
+				return f
+			}
+			if dr.ok {
+				x.Class("delete-during-slow-secondary-set")
+				if dr.err == nil {
+					if m := model[dr.key]; m != nil {
+						m.deleted = true
+					} else {
+						model[dr.key] = &hyModel{deleted: true}
+					}
+				} else {
+					model[dr.key] = &hyModel{unknown: true}
+				}
+			}
 		}
 		if c.Settle || st.Op == "overflow" && c15 {
 			if f := settle(); f != nil {
@@ -429,6 +499,7 @@ func execHybrid(c hyCase, x *verifkit.Ctx, c15 bool) (fail *verifkit.Failure) {
 			return failf("memory/unbounded-size", "EstimatedSize %d > MaxSize %d", es, c.MaxSize)
 		}
 	}
+	x.ClassIf(c.Pool, "entry-pool")
 	x.ClassIf(demotedPromoted, "demoted-then-promoted")
 	x.ClassIf(secFailure, "secondary-failure")
 	x.ClassIf(loaderEvicted, "loader-entry-evicted")
@@ -491,6 +562,7 @@ func genHybrid(c15 bool) func(t *rapid.T) hyCase {
 			Loading: rapid.Bool().Draw(t, "loading"),
 			Workers: rapid.IntRange(1, 4).Draw(t, "workers"),
 			Keys:    rapid.IntRange(1, 6).Draw(t, "keys"),
+			Pool:    rapid.IntRange(0, 2).Draw(t, "pool") == 0,
 		}
 		if c15 {
 			c.Prob = 1
@@ -522,6 +594,9 @@ func genHybrid(c15 bool) func(t *rapid.T) hyCase {
 			case op < 19:
 				return hyStep{Op: "adv", Dt: rapid.SampledFrom([]int64{1e9, 3e9, 25e9, 100e9}).Draw(t, "dt")}
 			default:
+				if !c15 && c.Prob == 1 && rapid.Bool().Draw(t, "slow") {
+					return hyStep{Op: "slowdel"}
+				}
 				return hyStep{Op: "settle"}
 			}
 		})
@@ -540,7 +615,7 @@ func TestVerifC14(t *testing.T) {
 	verifkit.Run(t, verifkit.Spec[hyCase]{
 		ID: "C14", Gen: genHybrid(false),
 		Exec:        func(c hyCase, x *verifkit.Ctx) *verifkit.Failure { return execHybrid(c, x, false) },
-		Rule:        "C14: rapid draws MaxSize 2..16, plain or loading hybrid store, 1..4 workers, admission probability {0,0.3,1}, optional failure scripts for secondary Set/Delete, whether the workers are awaited after each step, and up to 40 steps of Set/SetWithTTL (unique values) / Get / Delete / overflow(n) / advance+tick / settle; non-trivial = a key was demoted and later promoted, or a secondary call failed",
+		Rule:        "C14: rapid draws MaxSize 2..16, plain or loading hybrid store, entry pool on in a third of the cases, 1..4 workers, admission probability {0,0.3,1}, optional failure scripts for secondary Set/Delete, whether the workers are awaited after each step, and up to 40 steps of Set/SetWithTTL (unique values) / Get / Delete / overflow(n) / advance+tick / settle / 'slowdel' (a 4 ms slow secondary Set during a demotion with a Delete of exactly that key issued while the worker is inside it); non-trivial = a key was demoted and later promoted, or a secondary call failed",
 		Assumptions: hyAssumptions,
 	})
 }
